@@ -133,7 +133,10 @@ _POISONED = set()
 def arm_canary(world):
     """Compute the canary observation while the process is still pristine (before any run)."""
     if hasattr(world, "canary") and world.NAME not in _CANARY:
-        _CANARY[world.NAME] = cjson(world.canary())
+        try:
+            _CANARY[world.NAME] = cjson(world.canary())
+        except Exception as e:      # noqa - a tree on which even the canary scenario fails: the runs will say why
+            _CANARY[world.NAME] = "exception:%s:%s" % (type(e).__name__, str(e)[:200])
 
 
 def check_canary(world, out):
